@@ -662,7 +662,12 @@ COMPONENTS = {'two_connections': two_connections_case,
 END_MSGS = ['{"text":"bye"}', '{"translate":"disconnect.kicked"}',
             '"Kicked by an operator"', '[{"text":"a"},"b"]', 'not json',
             '', '{"text":"é世","extra":[{"text":"x"}]}', 'null', '42',
-            '{}']
+            '{}', '[]', '{"text":5}', '{"text":null}',
+            # the reason is opaque to the library: nesting deeper than any
+            # parser's recursion limit, unbalanced, or plain long
+            '[' * 4000 + ']' * 4000, '[' * 60000,
+            '{"text":' * 3000 + '""' + '}' * 3000,
+            '{"text":"' + 'k' * 70000 + '"}']
 
 
 def item_strategy(version):
